@@ -422,7 +422,18 @@ fn truncate(s: String, n: usize) -> String {
 }
 
 /// Drive `prop` with `cases` generated cases split over the context's threads.
+/// Debug aid: KVH_PARTS=a,b restricts a run to the named parts (evidence of such a run is partial).
+fn part_selected(part: &str) -> bool {
+    match std::env::var("KVH_PARTS") {
+        Ok(v) if !v.trim().is_empty() => v.split(',').any(|p| p.trim() == part),
+        _ => true,
+    }
+}
+
 pub fn run_pbt<P: Prop>(ctx: &Ctx, prop: &P, cases: u64) {
+    if !part_selected(prop.part()) {
+        return;
+    }
     // KVH_SCALE multiplies every case count (experiments / deeper ad-hoc runs)
     let cases = match std::env::var("KVH_SCALE").ok().and_then(|s| s.parse::<f64>().ok()) {
         Some(f) if f > 0.0 => ((cases as f64) * f).ceil() as u64,
@@ -555,6 +566,9 @@ pub fn run_pbt<P: Prop>(ctx: &Ctx, prop: &P, cases: u64) {
 
 /// Run explicit (enumerated or committed) cases through the same accounting.
 pub fn run_cases<P: Prop>(ctx: &Ctx, prop: &P, part: &str, cases: Vec<P::Case>, exhaustive: bool) {
+    if !part_selected(part.split('/').next().unwrap_or(part)) {
+        return;
+    }
     let merged = Mutex::new(PartStats { part: part.to_string(), rule: prop.rule(), exhaustive, ..Default::default() });
     let next = AtomicU64::new(0);
     let cases_ref = &cases;
